@@ -31,10 +31,11 @@ ErrOf(c) == CASE c.beh = "typed" -> "typed_2001"       \* registered class, code
               [] c.beh = "unregsrv" -> "base_m32050"   \* an unregistered code inside that range: the client's base class
               [] c.beh = "exc"   -> "server_32000"     \* any other exception: ServerError, no data
               [] OTHER -> "na"
+IsEcho(c) == c.beh \in {"echo", "_echo"}
 Calls == SelectSeq(prog.calls, LAMBDA c : ~c.notif)
 Expected == IF Calls = <<>> THEN Nothing
-            ELSE IF \E j \in DOMAIN Calls : Calls[j].beh # "echo"
-                 THEN LET f == CHOOSE j \in DOMAIN Calls : Calls[j].beh # "echo" /\ \A i \in 1..(j-1) : Calls[i].beh = "echo"
+            ELSE IF \E j \in DOMAIN Calls : ~IsEcho(Calls[j])
+                 THEN LET f == CHOOSE j \in DOMAIN Calls : ~IsEcho(Calls[j]) /\ \A i \in 1..(j-1) : IsEcho(Calls[i])
                       IN [k |-> "raise", vals |-> <<>>, err |-> ErrOf(Calls[f])]
                  ELSE [k |-> IF prog.notation \in SingleNotations THEN "value" ELSE "tuple",
                        vals |-> [j \in DOMAIN Calls |-> ValueOf(Calls[j])], err |-> "na"]
@@ -67,8 +68,8 @@ OneWellFormedDocPerCall == (Done /\ ~Broken) =>
     /\ \A j \in DOMAIN prog.calls : /\ wire[1].els[j].hasid = ~prog.calls[j].notif
                                     /\ wire[1].els[j].args = prog.calls[j].args /\ wire[1].els[j].method = prog.calls[j].beh
 ValueIsDirectCall == (Done /\ ~Broken /\ out.k \in {"value", "tuple"}) =>
-    /\ \A j \in DOMAIN Calls : Calls[j].beh = "echo" /\ out.vals[j] = ValueOf(Calls[j])
-ErrorIsTypedAndVerbatim == (Done /\ ~Broken /\ out.k = "raise") => \E j \in DOMAIN Calls : out.err = ErrOf(Calls[j]) /\ Calls[j].beh # "echo"
+    /\ \A j \in DOMAIN Calls : IsEcho(Calls[j]) /\ out.vals[j] = ValueOf(Calls[j])
+ErrorIsTypedAndVerbatim == (Done /\ ~Broken /\ out.k = "raise") => \E j \in DOMAIN Calls : out.err = ErrOf(Calls[j]) /\ ~IsEcho(Calls[j])
 NotificationsReturnNothingRunOnce == (Done /\ ~Broken) =>
     /\ (Calls = <<>> => out = Nothing)
     /\ Len(execLog) = Len(prog.calls)
